@@ -275,7 +275,11 @@ Weights ==
     [] Profile = "tags" -> <<"pushblob", "pushblob", "manput", "manput", "manput", "manput", "mandel", "mandel",
                              "tagslist", "tagslist", "manget", "restart", "mandelmiss">>
     [] Profile = "manput" -> <<"pushblob", "pushblob", "manput", "manput", "manputbad", "manputbad", "manputbad", "manputdq", "manputdq",
-                               "manputmiss", "manputmiss", "manputmiss", "mandel", "mandel", "blobdel", "blobdel", "pushmanblob">>
+                               "manputmiss", "manputmiss", "manputmiss", "mandel", "mandel", "blobdel", "blobdel", "pushmanblob", "blobdelman">>
+    \* C04: references that were there and are gone again (the blob of a pushed manifest deleted through the blob API, a
+    \* config or layer deleted) when the manifest or index that names them is pushed
+    [] Profile = "manputdel" -> <<"pushblob", "pushblob", "manput", "manput", "manput", "blobdelman", "blobdelman", "blobdel", "manputmiss",
+                                  "manputmiss", "manputmiss", "manputmiss", "mandel">>
     [] Profile = "refs" -> <<"pushblob", "pushblob", "manput", "manput", "manput", "manput", "mandel", "mandel", "restart">>
     [] Profile = "gc" -> <<"pushblob", "pushblob", "repushblob", "manput", "manput", "manput", "manput", "manput", "mandel", "mandel",
                            "blobdel", "gc", "gc", "gcsubj", "gcsubj", "gcsubj", "age", "age", "restart", "restart", "pushmanblob",
